@@ -265,7 +265,8 @@ func (b *expandBody) JustAttributes() (hcl.Attributes, hcl.Diagnostics) {
 	// blocks aren't allowed in JustAttributes mode and this body can
 	// only produce blocks, so we'll just pass straight through to our
 	// underlying body here.
-	return b.original.JustAttributes()
+	attrs, diags := b.original.JustAttributes()
+	return b.prepareAttributes(attrs), diags
 }
 
 func (b *expandBody) MissingItemRange() hcl.Range {
